@@ -227,11 +227,18 @@ def store(loc, val):
         loc.cell.v = val
         return
     v = loc.cell.v
+    if isinstance(v, ListV) and isinstance(loc.path[0], int) and 0 <= loc.path[0] < len(v.cells):
+        # an element of a list is its own cell
+        store(Loc(v.cells[loc.path[0]], tuple(loc.path[1:])), val)
+        return
     if not isinstance(v, (AggV, EnumV)):
         v = AggV("?")
         loc.cell.v = v
-    for i in loc.path[:-1]:
+    for n_, i in enumerate(loc.path[:-1]):
         nx = v.fields.get(i, TOP)
+        if isinstance(nx, ListV) and isinstance(loc.path[n_ + 1], int) and 0 <= loc.path[n_ + 1] < len(nx.cells):
+            store(Loc(nx.cells[loc.path[n_ + 1]], tuple(loc.path[n_ + 2:])), val)
+            return
         if not isinstance(nx, (AggV, EnumV)):
             nx = AggV("?")
             v.fields[i] = nx
@@ -438,11 +445,18 @@ class Engine:
                     loc = Loc(loc.cell, loc.path + (iv_.v,))
                 else:
                     return None
-            elif k == "constindex" and not pr.get("from_end"):
+            elif k == "constindex":
                 base = self.resolve(st, load(loc))
                 if isinstance(base, RefV):
                     loc = Loc(base.cell, base.path)
-                loc = Loc(loc.cell, loc.path + (int(pr["offset"]),))
+                    base = self.resolve(st, load(loc))
+                off_ = int(pr["offset"])
+                if pr.get("from_end"):
+                    n_ = len(base.b) if isinstance(base, BytesV) else len(base.cells) if isinstance(base, ListV) else len(base.fields) if isinstance(base, AggV) and base.kind == "array" else None
+                    if n_ is None:
+                        return None
+                    off_ = n_ - off_
+                loc = Loc(loc.cell, loc.path + (off_,))
             elif k in ("constindex", "subslice"):
                 return None
             else:
@@ -667,6 +681,27 @@ class Engine:
             return self.operand(st, fr, rv["a"])
         if k in ("ref", "rawptr"):
             pl = rv["place"]
+            if pl["proj"] and pl["proj"][-1]["k"] == "subslice":
+                # `&s[from..]`, `&s[..len-to]` of a slice pattern: a view of the same bytes / the same element cells
+                sub = pl["proj"][-1]
+                loc0 = self.place_loc(st, fr, {"l": pl["l"], "proj": pl["proj"][:-1]})
+                base = self.resolve(st, load(loc0)) if loc0 is not None else None
+                hops = 0
+                while isinstance(base, RefV) and hops < 4:
+                    base = self.resolve(st, load(Loc(base.cell, base.path)))
+                    hops += 1
+                n_ = len(base.b) if isinstance(base, BytesV) else len(base.cells) if isinstance(base, ListV) else len(base.fields) if isinstance(base, AggV) and base.kind == "array" else None
+                if n_ is None:
+                    return TOP
+                lo = int(sub["from"])
+                hi = n_ - int(sub["to"]) if sub.get("from_end") else int(sub["to"])
+                if not (0 <= lo <= hi <= n_):
+                    return TOP
+                if isinstance(base, BytesV):
+                    return RefV(Cell(BytesV(base.b[lo:hi], (base.off + lo) if base.off is not None else None), "bytes"), (), rv.get("mut", True))
+                if isinstance(base, ListV):
+                    return RefV(Cell(ListV(base.cells[lo:hi]), "sublist"), (), rv.get("mut", True))
+                return RefV(Cell(ListV([Cell(base.fields[i], "elem%d" % i) for i in sorted(base.fields)][lo:hi]), "sublist"), (), rv.get("mut", True))
             if pl["proj"] and pl["proj"][-1]["k"] == "deref":
                 # reborrow `&*p`: when p is not a tracked reference the result is p itself
                 base = self.read_place(st, fr, {"l": pl["l"], "proj": pl["proj"][:-1]})
@@ -709,6 +744,10 @@ class Engine:
                     t = load(Loc(a.cell, a.path))
                     if isinstance(t, BytesV):
                         return K(len(t.b))
+                    if isinstance(t, ListV):
+                        return K(len(t.cells))
+                    if isinstance(t, AggV) and t.kind == "array" and all(isinstance(i_, int) for i_ in t.fields):
+                        return K(len(t.fields))
                 return st.fresh(("len", snapshot(a)))
             return st.fresh(("unop", rv["op"], snapshot(a)))
         if k == "discr":
@@ -746,7 +785,7 @@ class Engine:
             if n_ is None:
                 kv = self.const_param(st, cnt)
                 n_ = kv.v if kv is not None and isinstance(kv.v, int) else None
-            if n_ is not None and n_ <= 64 and "a" in rv:
+            if n_ is not None and n_ <= 1024 and "a" in rv:
                 el = self.operand(st, fr, rv["a"])
                 import copy as _copy
                 return AggV("array", {i: (_copy.deepcopy(el) if isinstance(el, AggV) else el) for i in range(n_)})
